@@ -6,7 +6,7 @@ R5 flag sampled before the receive (check-then-act), R6 workers joined.
 """
 import ast
 
-from sa import sym
+from sa import sym, boolalg
 from sa.cfg import CFG, enclosing_stmts
 from sa.model import callee_attr, dotted, own_calls, own_nodes
 from . import common
@@ -355,7 +355,8 @@ def _r2_r3_producer(run, st, work_queues):
                          kind="multiple-puts", stage=st.name)
             continue
         # loop body has no break/continue/return that could skip the put
-        skips = [n for n in ast.walk(lnode) if isinstance(n, (ast.Break, ast.Continue, ast.Return))]
+        # (a `continue` before the put is part of its path condition, i.e. of the guard compared above)
+        skips = [n for n in ast.walk(lnode) if isinstance(n, ast.Return) or (isinstance(n, ast.Break) and _innermost_loop(f.node, n) is lnode)]
         if skips:
             run.violated("C03.R2", f, skips[0], "producer loop can skip items (break/continue/return at line %d)" % skips[0].lineno,
                          kind="producer-skip", stage=st.name)
@@ -409,6 +410,10 @@ def _subst_terms(t, m):
                 else:
                     args.append(a)
             t2 = ("call", t2[1], tuple(args), t2[3])
+        # the k-th item of a literal tuple is its k-th element
+        if len(t2) == 3 and t2[0] == "item" and isinstance(t2[1], tuple) and t2[1] and t2[1][0] in ("tuple", "list") \
+                and isinstance(t2[2], int) and 0 <= t2[2] < len(t2[1][1]) and not any(x[0] == "star" for x in t2[1][1]):
+            return t2[1][1][t2[2]]
         return t2
     return t
 
@@ -558,7 +563,13 @@ def _put_events(project, f, res, work_queues):
             continue
         fn = e.term[1]
         if fn[0] == "attr" and fn[2] in ("put", "put_nowait") and fn[1][0] == "new" and fn[1][1] in work_queues:
-            out.append(_Put(e, fn[1][1], e.term[2][0] if e.term[2] else None))
+            p = _Put(e, fn[1][1], e.term[2][0] if e.term[2] else None)
+            k = _loop_index_of(e.pc)
+            loops = {kk: node for kk, it, node in res.loops}
+            if k is not None and isinstance(loops.get(k), ast.While) and _is_retry_loop(f, loops[k], e.node):
+                # `while True: try: q.put(x, timeout=..); break; except Full: <check>`: one delivery of x per activation
+                p.pc = e.pc[:e.pc.index(("loop", k))]
+            out.append(p)
             continue
         if fn[0] in ("sym", "attr"):
             tgt = common.resolve_callee(project, f, e.node)
@@ -577,6 +588,56 @@ def _put_events(project, f, res, work_queues):
                     item = a
             out.append(_Put(e, q, item))
     return out
+
+
+def _is_retry_loop(f, loop, put_call):
+    """The while-loop only repeats a failed put: after a successful put control leaves the loop without coming
+    back to its head, the put is the only one in the loop, and the loop is left only that way (or by raising)."""
+    cfg = CFG(f.node)
+    try:
+        lh = cfg.node_of_stmt(loop)
+        pn = cfg.node_containing(put_call)
+    except Exception:
+        return False
+    if lh is None or pn is None:
+        return False
+    inside = {cfg.node_of_stmt(s).id for s in ast.walk(loop) if isinstance(s, ast.stmt) and cfg.node_of_stmt(s) is not None}
+    other_puts = [c for c in ast.walk(loop) if isinstance(c, ast.Call) and isinstance(c.func, ast.Attribute)
+                  and c.func.attr in ("put", "put_nowait") and c is not put_call]
+    if other_puts:
+        return False
+    # after success: never back at the head
+    for j, lab in cfg.succ[pn.id]:
+        if lab == "exc":
+            continue
+        if lh.id in (cfg.reachable(j, avoid=set()) & {lh.id}) and _reaches_within(cfg, j, lh.id, inside):
+            return False
+    # leaving the loop normally requires passing the put
+    exits = set()
+    for i in inside:
+        for j, lab in cfg.succ[i]:
+            if j not in inside and lab != "exc":
+                exits.add(j)
+    for x in exits:
+        if x in cfg.reachable(lh.id, avoid={pn.id}, skip_labels=("exc",)):
+            # reachable without executing the put at all?  only acceptable if via the put's own exception edge
+            if _reaches_within(cfg, lh.id, x, inside | {x}, avoid={pn.id}):
+                return False
+    return True
+
+
+def _reaches_within(cfg, src, dst, allowed, avoid=()):
+    seen, todo = set(), [src]
+    while todo:
+        i = todo.pop()
+        if i == dst:
+            return True
+        if i in seen or i in avoid or (i not in allowed and i != src):
+            continue
+        seen.add(i)
+        for j, lab in cfg.succ[i]:
+            todo.append(j)
+    return False
 
 
 def _has_loop(fnode):
@@ -636,21 +697,111 @@ def _arity_check(st, put_event):
 # ---------------------------------------------------------------------------
 # worker rules R4 / R5
 
-def _worker_rules(run, st, work_queues):
-    w = st.worker
-    cfg = CFG(w.node)
-    qparams = [p for p, v in st.queue_params().items() if v in work_queues]
-    eparams = list(st.event_params())
+def _gets_on(cfg, qparams):
     gets = []
     for n in cfg.nodes:
         for c in cfg.calls_at(n):
             if callee_attr(c) in ("get", "get_nowait") and isinstance(c.func, ast.Attribute) \
                     and isinstance(c.func.value, ast.Name) and c.func.value.id in qparams:
                 gets.append((n, c))
+    return gets
+
+
+def _receive_helper(project, w, qparams, eparams):
+    """A project function the worker hands its work queue (and done flag) to and that receives from it:
+    (helper Func, its queue params, its event params, the call nodes in the worker)."""
+    for c in own_calls(w.node):
+        g = common.resolve_callee(project, w, c)
+        if g is None or g is w:
+            continue
+        gp = g.params()
+        bound = {}
+        for i, a in enumerate(c.args):
+            if isinstance(a, ast.Name) and i < len(gp):
+                bound[gp[i]] = a.id
+        for k in c.keywords:
+            if k.arg and isinstance(k.value, ast.Name):
+                bound[k.arg] = k.value.id
+        gq = [p for p, v in bound.items() if v in qparams]
+        ge = [p for p, v in bound.items() if v in eparams]
+        if gq and _gets_on(CFG(g.node), gq):
+            calls = [c2 for c2 in own_calls(w.node) if common.resolve_callee(project, w, c2) is g]
+            return g, gq, ge, calls
+    return None
+
+
+def _worker_rules(run, st, work_queues):
+    w = st.worker
+    cfg = CFG(w.node)
+    qparams = [p for p, v in st.queue_params().items() if v in work_queues]
+    eparams = list(st.event_params())
+    gets = _gets_on(cfg, qparams)
     if not gets:
-        run.undecided("C03.R4", w, None, "worker never receives from its work queue", kind="no-get", stage=st.name)
+        helper = _receive_helper(run.project, w, qparams, eparams)
+        if helper is None:
+            run.undecided("C03.R4", w, None, "worker never receives from its work queue", kind="no-get", stage=st.name)
+            return
+        g, gq, ge, calls = helper
+        run.note_func(g)
+        # (1) the helper is the receiver: its "stop" exits obey R4/R5
+        _receiver_rules(run, st, g, CFG(g.node), _gets_on(CFG(g.node), gq), ge, helper_mode=True)
+        # (2) the worker's own loop stops only when the helper reports exhaustion (it returns None)
+        stops = [n for n in own_nodes(g.node) if isinstance(n, ast.Return) and not _returns_received(g, n, gq)]
+        if any(n.value is not None and not (isinstance(n.value, ast.Constant) and n.value.value is None) for n in stops):
+            run.undecided("C03.R4", g, stops[0], "receive helper reports exhaustion with a value other than None", kind="helper-stop-value", stage=st.name)
+            return
+        wev = sym.make_evaluator(run.project, w.module.name, [])
+        wres = wev.run(w.node)
+        hcalls = [e for e in wres.events if e.kind == "call" and any(e.node is c for c in calls)]
+        if not hcalls:
+            run.undecided("C03.R4", w, None, "call of the receive helper not found by the evaluator", kind="helper-call", stage=st.name)
+            return
+        hc = hcalls[0]
+        loop = _innermost_loop(w.node, hc.node)
+        if loop is None:
+            run.violated("C03.R4", w, hc.node, "receive is not inside a loop: the worker handles at most one item", kind="no-loop", stage=st.name)
+            return
+        bad = False
+        exhausted = sym.cmp("Is", hc.term, sym.NONE)
+        for e in wres.events:
+            if e.kind in ("break", "return") and _contains(loop, e.node) and (e.kind == "return" or _innermost_loop(w.node, e.node) is loop):
+                if boolalg.implies(boolalg.conj(e.pc), exhausted) is not True:
+                    run.violated("C03.R4", w, e.node, "worker loop exit at line %d does not depend on the receive helper %s reporting that the queue is "
+                                 "exhausted: the worker may stop while items remain" % (e.line, g.short), kind="exit-outside-empty-handler", stage=st.name)
+                    bad = True
+        if isinstance(loop, ast.While) and not (isinstance(loop.test, ast.Constant) and loop.test.value is True):
+            run.undecided("C03.R4", w, loop, "worker loop condition `%s` with a receive helper" % ast.unparse(loop.test), kind="helper-loop-cond", stage=st.name)
+            bad = True
+        if not bad:
+            run.holds("C03.R4", w, hc.node, "worker loop stops only when %s returns None" % g.short, stage=st.name)
         return
+    _receiver_rules(run, st, w, cfg, gets, eparams, helper_mode=False)
+
+
+def _returns_received(f, ret, qparams):
+    """The return statement hands back what was received from the queue (a delivery, not a stop)."""
+    if ret.value is None:
+        return False
+    names = set()
+    for n in own_nodes(f.node):
+        if isinstance(n, ast.Assign) and isinstance(n.value, ast.Call) and callee_attr(n.value) in ("get", "get_nowait") \
+                and isinstance(n.value.func, ast.Attribute) and isinstance(n.value.func.value, ast.Name) and n.value.func.value.id in qparams:
+            for t in n.targets:
+                names |= {x.id for x in ast.walk(t) if isinstance(x, ast.Name)}
+    for x in ast.walk(ret.value):
+        if isinstance(x, ast.Call) and callee_attr(x) in ("get", "get_nowait") and isinstance(x.func, ast.Attribute) \
+                and isinstance(x.func.value, ast.Name) and x.func.value.id in qparams:
+            return True
+        if isinstance(x, ast.Name) and x.id in names:
+            return True
+    return False
+
+
+def _receiver_rules(run, st, w, cfg, gets, eparams, helper_mode):
     run.call_sites += len(own_calls(w.node))
+    wev = sym.make_evaluator(run.project, w.module.name, [])
+    wev.volatile = {"is_set"}
+    wres = wev.run(w.node)
     for gnode, gcall in gets:
         loops = [s for s, blk in enclosing_stmts(w.node, gnode.ast) if isinstance(s, (ast.While, ast.For))]
         if not loops:
@@ -667,6 +818,9 @@ def _worker_rules(run, st, work_queues):
                 and isinstance(c.func.value, ast.Name) and c.func.value.id in eparams
         exits = [n for n in ast.walk(loop) if isinstance(n, (ast.Break, ast.Return))
                  and _innermost_loop(w.node, n) is loop]
+        if helper_mode:
+            qps = {gc.func.value.id for gn, gc in gets}
+            exits = [n for n in exits if not (isinstance(n, ast.Return) and _returns_received(w, n, qps))]
         if isinstance(loop, ast.While) and not (isinstance(loop.test, ast.Constant) and loop.test.value is True):
             exits.append(loop)  # loop condition is an exit too
         facts = dict(stage=st.name, worker=w.short, get_line=gcall.lineno, get_kind=kind,
@@ -693,15 +847,7 @@ def _worker_rules(run, st, work_queues):
                     bad = True
                 continue
             in_handler = any(_contains(h, x) for h in handlers)
-            conds = _conditions_of(w.node, x)
-            flag_guard = False
-            for test, pol in conds:
-                reads = [c for c in ast.walk(test) if isinstance(c, ast.Call) and is_flag_read(c)]
-                names = {n.id for n in ast.walk(test) if isinstance(n, ast.Name)}
-                if reads and pol and not _negated(test):
-                    flag_guard = True
-                elif pol and _flag_locals(w.node, is_flag_read) & names and not _negated(test):
-                    flag_guard = True
+            flag_guard = bool(_flag_sites_guarding(wres, x, eparams))
             if not in_handler:
                 run.violated("C03.R4", w, x, "worker loop exit at line %d is not inside the Empty handler of the receive: "
                              "the worker may stop while items remain" % x.lineno, kind="exit-outside-empty-handler", **facts)
@@ -714,10 +860,24 @@ def _worker_rules(run, st, work_queues):
         if not bad:
             run.holds("C03.R4", w, gcall, "only exit: Empty handler of a timed get, under the done flag", **facts)
         # ---- R5
-        _r5(run, st, w, cfg, gnode, gcall, loop, handlers, exits, is_flag_read, facts)
+        _r5(run, st, w, cfg, gnode, gcall, loop, handlers, exits, is_flag_read, facts, wres, eparams)
 
 
-def _r5(run, st, w, cfg, gnode, gcall, loop, handlers, exits, is_flag_read, facts):
+def _flag_sites_guarding(wres, exit_node, eparams):
+    """Sites (line, col) of the done-flag reads whose value being true is implied by the path condition of a loop exit."""
+    out = []
+    for e in wres.events:
+        if e.node is not exit_node or e.kind not in ("break", "return"):
+            continue
+        cond = boolalg.conj(e.pc)
+        for a in sym.atoms_of(cond):
+            if a[0] == "vol" and a[1][1][0] == "attr" and a[1][1][2] == "is_set" and a[1][1][1][0] == "sym" and a[1][1][1][1] in eparams:
+                if boolalg.implies(cond, a) is True:
+                    out.append((a[2], a[3]))
+    return out
+
+
+def _r5(run, st, w, cfg, gnode, gcall, loop, handlers, exits, is_flag_read, facts, wres=None, eparams=()):
     # exemption: completion channel -- the stage sets the flag only after a loop whose only
     # exit is the receipt of a final completion message from the workers
     if _has_completion_channel(st):
@@ -751,14 +911,15 @@ def _r5(run, st, w, cfg, gnode, gcall, loop, handlers, exits, is_flag_read, fact
             pre_locals |= {t.id for t in n.ast.targets if isinstance(t, ast.Name)}
     exit_uses_fresh = False
     exit_uses_pre = False
+    pre_sites = {(c.lineno, c.col_offset) for n, c in flag_reads if n in pre}
     for x in exits:
         if x is loop:
             continue
-        for test, pol in _conditions_of(w.node, x):
-            if any(isinstance(c, ast.Call) and is_flag_read(c) for c in ast.walk(test)):
-                exit_uses_fresh = True
-            if pre_locals & {nn.id for nn in ast.walk(test) if isinstance(nn, ast.Name)}:
+        for site in _flag_sites_guarding(wres, x, eparams):
+            if site in pre_sites:
                 exit_uses_pre = True
+            else:
+                exit_uses_fresh = True
     if pre and exit_uses_fresh and not exit_uses_pre and not drain:
         n = post[0] if post else pre[0]
         run.violated("C03.R5", w, n.ast,
@@ -818,7 +979,10 @@ def _innermost_loop(fnode, target):
 
 
 def _enclosing_stmt(fnode, target):
-    return target
+    if isinstance(target, ast.stmt):
+        return target
+    from sa.cfg import stmt_of
+    return stmt_of(fnode, target) or target
 
 
 def _conditions_of(fnode, target):
